@@ -91,6 +91,8 @@ def fl_table(vs, ls, ff1, li):
                         t[(a, b, ds, u)] = frozenset(li.get(id(l), "?") for l in helpers.find_links(vs[a], vs[b], ds, u, ff1))
                     except NotImplementedError:
                         t[(a, b, ds, u)] = "NIE"
+                    except graphs.FilterMisuse as e:
+                        raise Violation("filter-misused", f"find_links(v{a}, v{b}, {ds}, {u}): {e}")
     return t
 
 
